@@ -178,7 +178,7 @@ pub fn run(args: &Args) -> i32 {
                     Ok(Some(d)) => ds = Some(d),
                     Ok(None) => {}
                     Err(e) => {
-                        report.harness_error(&format!("case {case}: write: {e}"));
+                        op_failed(&report, &format!("case {case}: write: {e}"));
                         return;
                     }
                 }
@@ -194,7 +194,7 @@ pub fn run(args: &Args) -> i32 {
                 .max_token_length(None)
                 .with_position(true);
             if let Err(e) = guarded(ds.create_index(&["doc"], IndexType::Inverted, Some("doc_idx".into()), &params, true)).await {
-                report.harness_error(&format!("case {case}: create inverted index: {e:?}"));
+                op_failed(&report, &format!("case {case}: create inverted index: {e:?}"));
                 return;
             }
             let mut unindexed = false;
@@ -220,7 +220,7 @@ pub fn run(args: &Args) -> i32 {
                                 .collect();
                             let p = WriteParams { mode: WriteMode::Append, data_storage_version: Some(version), ..Default::default() };
                             if let Err(e) = guarded_op("append", ds.append(reader_of(vec![mk(&rows)]), Some(p))).await {
-                                report.harness_error(&format!("case {case}: {e}"));
+                                op_failed(&report, &format!("case {case}: {e}"));
                                 return;
                             }
                             unindexed_ids.extend(rows.iter().map(|r| r.0));
@@ -235,7 +235,7 @@ pub fn run(args: &Args) -> i32 {
                                 let victims: Vec<i64> = rng.sample_indices(all.len(), k).into_iter().map(|i| all[i]).collect();
                                 let del = format!("id IN ({})", victims.iter().map(|v| v.to_string()).collect::<Vec<_>>().join(","));
                                 if let Err(e) = guarded_op("delete", ds.delete(&del)).await {
-                                    report.harness_error(&format!("case {case}: {e}"));
+                                    op_failed(&report, &format!("case {case}: {e}"));
                                     return;
                                 }
                                 for v in victims {
@@ -247,7 +247,7 @@ pub fn run(args: &Args) -> i32 {
                         3 => {
                             let o = if rng.bool() { OptimizeOptions::append() } else { OptimizeOptions::merge(10) };
                             if let Err(e) = guarded_op("optimize_indices", ds.optimize_indices(&o)).await {
-                                report.harness_error(&format!("case {case}: {e}; history {history:?}"));
+                                op_failed(&report, &format!("case {case}: {e}; history {history:?}"));
                                 return;
                             }
                             unindexed = false;
@@ -259,7 +259,7 @@ pub fn run(args: &Args) -> i32 {
                             match guarded(compact_files(&mut ds, opts, None)).await {
                                 Ok(m) => history.push(format!("compact(-{}+{})", m.fragments_removed, m.fragments_added)),
                                 Err(e) => {
-                                    report.harness_error(&format!("case {case}: compact: {e:?}"));
+                                    op_failed(&report, &format!("case {case}: compact: {e:?}"));
                                     return;
                                 }
                             }
